@@ -423,6 +423,9 @@ def check_sorting(ctx):
 
 
 def run(ctx):
+    from ..lints import check_caches
+
+    check_caches(ctx, "C19-D5 caches", ['circuits.symbolic.sympy_expressions', 'circuits.symbolic.translations', 'circuits.symbolic._sorting', 'circuits.symbolic.expressions'])
     check_refusals(ctx)
     check_dialect(ctx)
     check_special_cases(ctx)
